@@ -200,6 +200,13 @@ Fixpoint burst (s : sstate) (l : list (chanid * (nat * ecls))) : sstate * list d
 
 Definition new_stream cs f cap oneshot : stream := Stream cs f cap oneshot true [] false None [] [] [].
 
+Definition deactivated (st : stream) : stream :=
+  Stream (s_chans st) (s_flt st) (s_cap st) (s_oneshot st) false (s_queue st) false None
+         (s_accepted st) (s_consumed st) (s_yielded st).
+(* the index of the last active stream (d when there is none) *)
+Definition last_active (l : list stream) (d : nat) : nat :=
+  fst (fold_left (fun (acc : nat * nat) st => (if s_active st then snd acc else fst acc, S (snd acc))) l (d, 0)).
+
 Definition sstep (s : sstate) (o : sop) : sstate * sout :=
   match o with
   | Access i a => let '(s', c) := access s i a in (s', OChan c)
@@ -227,11 +234,13 @@ Definition sstep (s : sstate) (o : sop) : sstate * sout :=
       match nth_error (streams s) sid with
       | Some st =>
           if s_active st then
-            (SS (bound s)
-                (upd (streams s) sid
-                     (Stream (s_chans st) (s_flt st) (s_cap st) (s_oneshot st) false (s_queue st) false None
-                             (s_accepted st) (s_consumed st) (s_yielded st)))
-                (warnings s), OLeft)
+            (* which subscription goes is what Signal._subscribe undoes in its finally clause on this run
+               (Gen_signal): its own stream -- or whichever was subscribed last *)
+            let victim := if sig_unsubscribes_its_own_stream then sid else last_active (streams s) sid in
+            match nth_error (streams s) victim with
+            | Some vt => (SS (bound s) (upd (streams s) victim (deactivated vt)) (warnings s), OLeft)
+            | None => (s, OInvalid)
+            end
           else (s, OInvalid)
       | None => (s, OInvalid)
       end
